@@ -53,6 +53,10 @@ pub struct Hist {
     pub via: Vec<Orient>,
     #[serde(default)]
     pub mid: Vec<DrawOp>,
+    /// after the final orientation has been set: a set_orientation to this value whose very first
+    /// low-level operation fails, so nothing of it reaches the controller (used by C08 only)
+    #[serde(default)]
+    pub failed: Option<Orient>,
 }
 
 #[derive(Clone, Debug, PartialEq, Eq, Hash, Serialize, Deserialize)]
@@ -90,6 +94,19 @@ impl Session {
                 // drawn under orientation o with coordinates that are in bounds for every orientation
                 let pulls = std::cell::Cell::new(0u64);
                 s.dut.run(op, &pulls).map_err(|e| format!("history: {} under {:?} failed: {}", op_name(op), o, err_string(&e)))?;
+            }
+        }
+        if let Some(o) = h.failed {
+            {
+                let mut wb = s.w.borrow_mut();
+                let a = wb.ops;
+                wb.fail_at = vec![a];
+            }
+            let r = s.dut.set_orientation(o);
+            s.w.borrow_mut().fail_at.clear();
+            if r.is_ok() {
+                // the call needed no bus operation (or none failed): put the orientation of the case back
+                s.dut.set_orientation(cfg.orient).map_err(|e| format!("history: set_orientation({:?}) failed: {}", cfg.orient, err_string(&e)))?;
             }
         }
         {
